@@ -74,6 +74,25 @@ def role_switch(m, b):
                     for n in names:
                         tm.setdefault(n, t['else'])
                     return bi, tm
+    # `if member.role == ClusterRole::X` / `!=`: the derived PartialEq compared with one constant variant
+    names = [v['name'] for v in m.prog.adts[ROLE]['variants']]
+    for bi, t in b.calls():
+        d = core.callee_decl(t)
+        if d not in ('std::cmp::PartialEq::eq', 'std::cmp::PartialEq::ne') or ROLE not in t['f'].get('dargs', ''):
+            continue
+        consts = set()
+        for a in t['args']:
+            vs = core.enum_variants_of(b, a)
+            if vs and '?' not in vs and len(vs) == 1:
+                consts |= set(vs)
+        if len(consts) != 1:
+            continue
+        x = next(iter(consts))
+        for (sw, tt, ft) in core.bool_switches(b, bi):
+            if d.endswith('::ne'):
+                tt, ft = ft, tt
+            tm = {n: (tt if n == x else ft) for n in names}
+            return sw, tm
     return None
 
 
